@@ -44,6 +44,9 @@ type c15rec struct {
 
 var c15Strings = []string{"", "plain", "quote\"back\\slash", "tab\tnew\nline", "unicode é 漢  ", "<html>&amp;", "null", "n", "\x00\x01"}
 
+// intact records of other schemas (what a misdirected read returns)
+var c15Foreign = []string{`"text"`, `12`, `300`, `-1.5e3`, `true`, `[1,2]`, `["a"]`, `{"a":1}`, `{"a":"x","b":7,"c":"y","D":[1]}`, `[]`, `{}`, `"12"`, `[null]`, `{"p":"x"}`, `1e400`, `99999999999999999999`, `[[1]]`, `{"k":1}`}
+
 type shortReader struct {
 	data   []byte
 	chunks []int
@@ -83,6 +86,8 @@ func (s *shortReader) Read(p []byte) (int, error) {
 	return n, nil
 }
 
+const c15Direct = -2
+
 type c15ctx struct {
 	r    *sim.Run
 	name string
@@ -93,6 +98,11 @@ func c15Decode[T any](c *c15ctx, data []byte, pre T, useDecoder bool, chunks []i
 	target := pre
 	func() {
 		defer func() { pan = recover() }()
+		if failAt == c15Direct {
+			// the reader hands the raw bytes straight to the target's own UnmarshalJSON
+			err = any(&target).(json.Unmarshaler).UnmarshalJSON(data)
+			return
+		}
 		if useDecoder {
 			err = json.NewDecoder(&shortReader{data: data, chunks: chunks, failAt: failAt}).Decode(&target)
 		} else {
@@ -111,11 +121,16 @@ func c15Faults(r *sim.Run, rec, other []byte) (out [][]byte, names []string) {
 	n := r.Range(2, 8, "nFaults")
 	for i := 0; i < n; i++ {
 		b := append([]byte(nil), rec...)
-		kind := r.Choose(8, "faultKind")
-		if len(b) == 0 {
+		kind := r.Choose(9, "faultKind")
+		if len(b) == 0 && kind != 8 {
 			kind = 7
 		}
 		switch kind {
+		case 8:
+			// misdirected read: the store returns an intact record of another schema
+			b = []byte(c15Foreign[r.Choose(len(c15Foreign), "foreign")])
+			names = append(names, fmt.Sprintf("misdirected read returning the foreign record %s", b))
+			r.Fault("misdirected-read")
 		case 0:
 			p := r.Choose(len(b)*8, "bit")
 			b[p/8] ^= 1 << (p % 8)
@@ -221,8 +236,17 @@ func c15Run[T any](c *c15ctx, v, pre, otherVal T, plain any, hasPlain bool, isOp
 		if i >= len(rec) {
 			r.MixFingerprintS(string(data))
 		}
-		for _, dec := range []bool{false, true} {
-			got, err, pan := c15Decode(c, data, pre, dec, chunks, -1)
+		_, direct := any(&pre).(json.Unmarshaler)
+		for mode := 0; mode < 3; mode++ {
+			dec, failAt := mode == 1, -1
+			if mode == 2 {
+				if !direct || !isOptTarget {
+					continue
+				}
+				failAt = c15Direct
+				r.Probe("faulted-direct-UnmarshalJSON-calls")
+			}
+			got, err, pan := c15Decode(c, data, pre, dec, chunks, failAt)
 			r.Probe("faulted-decodes")
 			if i < len(rec) {
 				r.Fault("torn-write")
